@@ -1,32 +1,41 @@
 #!/usr/bin/env python3
-"""Re-evaluates every seeded change under /verif/seeded: positive seeds against the quick check of their property,
-negative controls (neg_*) against all twenty quick checks.  Writes seeded/RESULTS.json.  Usage: tools/seed_matrix.py [--only prefix]"""
-import json, os, subprocess, sys, glob
+"""Re-evaluates every seeded change under /verif/seeded: negative controls (neg_*) against all twenty quick checks
+(they run first), positive seeds against the quick check of their property.  Writes seeded/RESULTS.json.
+Usage: tools/seed_matrix.py [--only prefix] [--jobs N]"""
+import json, os, subprocess, sys, glob, threading
+from concurrent.futures import ThreadPoolExecutor
 ROOT = os.path.dirname(os.path.dirname(os.path.abspath(__file__)))
 only = sys.argv[sys.argv.index('--only') + 1] if '--only' in sys.argv else ''
-out = {}
+jobs = int(sys.argv[sys.argv.index('--jobs') + 1]) if '--jobs' in sys.argv else 3
 path = os.path.join(ROOT, 'seeded', 'RESULTS.json')
-if os.path.exists(path):
-    out = json.load(open(path))
-for d in sorted(glob.glob(os.path.join(ROOT, 'seeded', '*'))):
+out = json.load(open(path)) if os.path.exists(path) else {}
+lock = threading.Lock()
+
+
+def one(d):
     k = os.path.basename(d)
-    if not os.path.isdir(d) or not k.startswith(only):
-        continue
     neg = k.startswith('neg_')
     meta = json.load(open(os.path.join(d, 'meta.json')))
     pid = meta['property'] if meta['property'] != 'all' else 'C01'
     cmd = ['python3', os.path.join(ROOT, 'tools', 'seed_eval.py'), d, pid] + (['--all'] if neg else [])
-    r = subprocess.run(cmd, capture_output=True, text=True)
+    r = subprocess.run(cmd, capture_output=True, text=True, env=dict(os.environ, VERIF_PROCS='8'))
     try:
         res = json.loads(r.stdout)
+        fired = sorted(p for p, c in res['checks'].items() if c['exit'] == 1)
+        broken = sorted(p for p, c in res['checks'].items() if c['exit'] not in (0, 1))
+        rec = {'tests_pass': res.get('tests_pass'), 'demo_with_change': res.get('demo_with_change'), 'demo_without_change': res.get('demo_without_change'),
+               'checks_run': sorted(res['checks']), 'violation_reported_by': fired, 'machinery_fault_in': broken,
+               'verdict': ('SILENT as required' if not fired and not broken else 'FALSE ALARM') if neg else ('DETECTED' if pid in fired else 'MISSED'),
+               'first_kind': (res['checks'][fired[0]]['kinds'][:1] if fired else [])}
     except Exception:
-        out[k] = {'error': r.stdout[-500:] + r.stderr[-500:]}
-        continue
-    fired = sorted(p for p, c in res['checks'].items() if c['exit'] == 1)
-    broken = sorted(p for p, c in res['checks'].items() if c['exit'] not in (0, 1))
-    out[k] = {'tests_pass': res.get('tests_pass'), 'demo_with_change': res.get('demo_with_change'), 'demo_without_change': res.get('demo_without_change'),
-              'checks_run': sorted(res['checks']), 'violation_reported_by': fired, 'machinery_fault_in': broken,
-              'verdict': ('SILENT as required' if not fired and not broken else 'FALSE ALARM') if neg else ('DETECTED' if pid in fired else 'MISSED'),
-              'first_kind': (res['checks'][fired[0]]['kinds'][:1] if fired else [])}
-    print(k, out[k]['verdict'], fired, flush=True)
-    json.dump(out, open(path, 'w'), indent=1, ensure_ascii=False)
+        rec = {'error': r.stdout[-500:] + r.stderr[-500:]}
+    with lock:
+        out[k] = rec
+        print(k, rec.get('verdict', 'ERROR'), rec.get('violation_reported_by'), flush=True)
+        json.dump(out, open(path, 'w'), indent=1, ensure_ascii=False)
+
+
+dirs = [d for d in sorted(glob.glob(os.path.join(ROOT, 'seeded', '*'))) if os.path.isdir(d) and os.path.basename(d).startswith(only)]
+dirs.sort(key=lambda d: (not os.path.basename(d).startswith('neg_'), os.path.basename(d)))
+with ThreadPoolExecutor(jobs) as ex:
+    list(ex.map(one, dirs))
